@@ -998,3 +998,33 @@ func iteReader(c bool, a, b io.Reader) io.Reader {
 //@   ensures  [err] result2 != nil ==> result1 == nil
 //@   ensures  [cut] !(inEnd(r)-old(inPos(r)) >= 2 && inEnd(r)-old(inPos(r)) >= ws.VSpecNeed(inByte(r, old(inPos(r))+1))) ==> result2 != nil
 //@   ensures  [hdr] result2 == nil ==> result0 == ws.VSpecDecode(r, old(inPos(r))) && result1 != nil
+
+// DebugDialer.Dial (C15): no panic whatever the wrapped dial did or the peer sent. The dial itself
+// (network, handshake, the WrapConn closure it may call) is abstracted.
+//@ func bytes.Buffer.Bytes
+//@   assigns nothing
+
+//@ func bytes.Index
+//@   ensures [r] -1 <= result && result <= len(s)-len(sep)
+//@   assigns nothing
+
+//@ func bufio.Reader.Reset
+//@   assigns nothing
+
+//@ func bufio.Reader.Peek
+//@   assigns nothing
+
+//@ func io.MultiReader
+//@   assigns nothing
+
+//@ func bytes.NewReader
+//@   assigns nothing
+
+//@ funcval func([]byte) :: (p []byte)
+//@   assigns nothing
+
+//@ func DebugDialer.Dial
+//@   props C15
+//@   call ws.Dialer.Dial havoc
+//@   requires [d] d != nil
+//@   ensures [t] true
